@@ -149,6 +149,7 @@ func inventoryOf(pkgs []*packages.Package) []*invItem {
 						for i := 0; i < st.NumFields(); i++ {
 							fl := st.Field(i)
 							if fl.Embedded() {
+								out = append(out, &invItem{Kind: "field", Pkg: sp, Owner: owner, Name: fl.Name(), Sig: "embedded " + types.TypeString(fl.Type(), shortQualifier), obj: fl})
 								continue
 							}
 							if top {
@@ -298,7 +299,9 @@ func matchRenames(frozen, current []*invItem) []renamePair {
 				// fields have no body: an unambiguous type match, or clearly the same set of using functions
 				ok = unique || x.score >= 0.6 && x.score-second >= 0.2
 			case kind == "type":
-				ok = x.score >= 0.6 && x.score-second >= 0.2
+				// member names mostly agree; or it is the only type of its kind that went and the only one that came, and the
+				// method names agree
+				ok = x.score >= 0.5 && x.score-second >= 0.2 || unique && x.score >= 0.3
 			case unique:
 				ok = x.score >= 0.25 || len(x.m.Fp) == 0
 			default:
@@ -439,4 +442,49 @@ func countFuncLits(n ast.Node) int {
 		return true
 	})
 	return k
+}
+
+// movedFields: fields of a struct that were grouped into a new nested anonymous struct field of the same struct
+// (`mu`, `headers` → `protected struct{ sync.Mutex; headers … }`). Nothing is rewritten for these: field keys and
+// access paths are aliased back (ownerKey, lpath). A moved field keeps its name and type; a named mutex may become
+// the embedded one.
+func movedFields(frozen, current []*invItem) map[fieldKey]fieldKey {
+	out := map[fieldKey]fieldKey{}
+	cur := map[string]*invItem{}
+	for _, c := range current {
+		cur[c.key()] = c
+	}
+	frz := map[string]bool{}
+	for _, f := range frozen {
+		frz[f.key()] = true
+	}
+	for _, f := range frozen {
+		if f.Kind != "field" || cur[f.key()] != nil {
+			continue
+		}
+		var hits []*invItem
+		for _, c := range current {
+			if c.Kind != "field" || c.Pkg != f.Pkg || frz[c.key()] {
+				continue
+			}
+			// c.Owner = f.Owner + "." + <new nested field>
+			if !strings.HasPrefix(c.Owner, f.Owner+".") || strings.Contains(strings.TrimPrefix(c.Owner, f.Owner+"."), ".") {
+				continue
+			}
+			nested := &invItem{Kind: "field", Pkg: f.Pkg, Owner: f.Owner, Name: strings.TrimPrefix(c.Owner, f.Owner+".")}
+			if frz[nested.key()] {
+				continue // the nested struct is not new
+			}
+			sameName := c.Name == f.Name && c.Sig == f.Sig
+			embeddedMutex := c.Sig == "embedded "+f.Sig && strings.HasPrefix(f.Sig, "sync.")
+			if sameName || embeddedMutex {
+				hits = append(hits, c)
+			}
+		}
+		if len(hits) == 1 {
+			c := hits[0]
+			out[fieldKey{c.Pkg + "." + c.Owner, c.Name}] = fieldKey{f.Pkg + "." + f.Owner, f.Name}
+		}
+	}
+	return out
 }
